@@ -59,9 +59,13 @@ fn run_case(r: &mut Rng, scrut: &str, base: &Path) -> String {
     let dir = tempfile::Builder::new().prefix("cfg.").tempdir_in(base).unwrap();
     let marks = dir.path().join("marks");
     let density = *r.pick(&[2u64, 4, 6, 8]);
+    // --cram-compat: the Markdown document runs as ONE script with the Cram defaults as the lowest layer; every test case must then carry
+    // the same configuration, and nothing is prepended or appended
+    let compat = r.chance(1, 5);
     let mut docs = vec![Doc { role: 'm', defaults: gen_layer(r, density, 1), tests: (0..r.range(1, 3)).map(|_| gen_layer(r, density, 2)).collect() }];
+    if compat { let first = docs[0].tests[0].clone(); for t in docs[0].tests.iter_mut() { *t = first.clone(); } }
     for role in ['p', 'a', 'P', 'A'] {
-        if r.chance(1, 3) { docs.push(Doc { role, defaults: gen_layer(r, density, if role == 'p' || role == 'P' { 3 } else { 4 }), tests: (0..r.range(1, 2)).map(|_| gen_layer(r, density, 5)).collect() }); }
+        if !compat && r.chance(1, 3) { docs.push(Doc { role, defaults: gen_layer(r, density, if role == 'p' || role == 'P' { 3 } else { 4 }), tests: (0..r.range(1, 2)).map(|_| gen_layer(r, density, 5)).collect() }); }
     }
     let name = |i: usize, d: &Doc| format!("{}{}.md", match d.role { 'm' => "main", 'p' | 'P' => "pre", _ => "app" }, i);
     let fm_pre: Vec<String> = docs.iter().enumerate().filter(|(_, d)| d.role == 'p').map(|(i, d)| name(i, d)).collect();
@@ -75,6 +79,7 @@ fn run_case(r: &mut Rng, scrut: &str, base: &Path) -> String {
     let mut cmd = Command::new(scrut);
     cmd.current_dir(dir.path()).env("TMPDIR", &tmpdir).env("NO_COLOR", "1").env_remove("VA").env_remove("VB").env_remove("VC").env_remove("VD")
         .arg("test").arg("-r").arg("json").arg("--log-level").arg("error");
+    if compat { cmd.arg("--cram-compat"); }
     match cli.os { Some(0) => { cmd.arg("--no-combine-output"); } Some(2) => { cmd.arg("--combine-output"); } _ => {} }
     match cli.kc { Some(true) => { cmd.arg("--keep-output-crlf"); } Some(false) => { cmd.arg("--no-keep-output-crlf"); } _ => {} }
     cmd.arg(name(0, &docs[0]));
@@ -103,7 +108,7 @@ fn run_case(r: &mut Rng, scrut: &str, base: &Path) -> String {
         }
     }
     let marks_s = std::fs::read_to_string(&marks).unwrap_or_default().split_whitespace().collect::<Vec<_>>().join(",");
-    format!("Q {}|{}|exit={}|{}|{}", show_layer(&cli),
+    format!("Q {}{}|{}|exit={}|{}|{}", show_layer(&cli), if compat { " cc=1" } else { "" },
         docs.iter().map(|d| format!("{}:{}:{}", d.role, show_layer(&d.defaults), d.tests.iter().map(show_layer).collect::<Vec<_>>().join("/"))).collect::<Vec<_>>().join(";"),
         code, if seen.is_empty() { "-".to_string() } else { seen.join(",") }, if marks_s.is_empty() { "-".to_string() } else { marks_s })
 }
